@@ -79,11 +79,16 @@ func checkC16(c *Ctx, r *Result, tier string) {
 	if gr, err := ExtractGrammar(c); err == nil {
 		oc.grammar = gr
 	}
+	obsByFn := map[*ssa.Function][]Obligation{}
 	for _, fn := range funcs {
 		obs := oc.enumerate(fn, nil)
 		obs = append(obs, oc.tokenObligations(fn)...)
 		sortObligations(obs)
-		for _, ob := range obs {
+		obsByFn[fn] = obs
+	}
+	matchReviewed(c, c16Reviewed, funcs, obsByFn)
+	for _, fn := range funcs {
+		for _, ob := range obsByFn[fn] {
 			r.Obligations++
 			rule := "R16a-" + ob.Kind
 			switch {
